@@ -79,7 +79,7 @@ package kernel
 //@ spec LegacyTs(node *Node, ts uint64) int = U64(ts - U64((HourOf(node, ts) + 1 - config.KernelNodeAcceptTimeBegin) * 3600000000000))
 //@ -- CertAt(chain, s, ts): the snapshot's certificate verifies against the key vector ConsensusKeys(round, ts) with THE threshold at ts
 //@ spec CertAt(chain *Chain, s *common.Snapshot, ts uint64) bool =
-//@     CertB(CKPrefix(chain, s.RoundNumber, ts, seq(s.Hash), seq(s.Signature.Signature)), ThresholdAt(chain.node, ts, true), s.Signature.Mask)
+//@     CertB(CKPrefix(chain, s.RoundNumber, ts, seq(s.Hash), seq(s.Signature.Signature)), CertThresholdAt(chain.node, ts, true), s.Signature.Mask)
 
 //@ func (chain *Chain) verifyFinalization
 //@   property C09, C10
